@@ -186,6 +186,13 @@ func (g *SessionManager) selectSession(msg interface{}) getty.Session {
 
 func (g *SessionManager) getXid(msg interface{}) string {
 	var xid string
+	// the remoting client hands over the whole RPC message: the xid is in its body
+	if rpcMsg, ok := msg.(message.RpcMessage); ok {
+		msg = rpcMsg.Body
+	}
+	if msg == nil {
+		return xid
+	}
 	if tmpMsg, ok := msg.(message.AbstractGlobalEndRequest); ok {
 		xid = tmpMsg.Xid
 	} else if tmpMsg, ok := msg.(message.GlobalBeginRequest); ok {
@@ -200,7 +207,11 @@ func (g *SessionManager) getXid(msg interface{}) string {
 		if msgType.Kind() == reflect.Ptr {
 			msgValue = msgValue.Elem()
 		}
-		xid = msgValue.FieldByName("Xid").String()
+		if msgValue.Kind() == reflect.Struct {
+			if field := msgValue.FieldByName("Xid"); field.IsValid() && field.Kind() == reflect.String {
+				xid = field.String()
+			}
+		}
 	}
 	return xid
 }
